@@ -187,6 +187,30 @@ impl<T: Default + Clone> DimArray<T> {
     }
 }
 
+#[cfg(feature = "verif-hooks")]
+impl Arrays {
+    /// Sorted list of (name, dimension sizes, number of cells, cells are strings).
+    pub(crate) fn verif_entries(&self) -> Vec<(String, Vec<usize>, usize, bool)> {
+        let mut entries: Vec<(String, Vec<usize>, usize, bool)> = self
+            .0
+            .iter()
+            .map(|(name, array)| match array {
+                ValueArray::String(a) => {
+                    (name.to_string(), a.dimensions.clone(), a.values.len(), true)
+                }
+                ValueArray::Number(a) => (
+                    name.to_string(),
+                    a.dimensions.clone(),
+                    a.values.len(),
+                    false,
+                ),
+            })
+            .collect();
+        entries.sort();
+        entries
+    }
+}
+
 #[cfg(test)]
 mod tests {
     use crate::interpreter_error::{InterpreterError, OutOfMemoryError};
